@@ -435,7 +435,7 @@ def search_witness(repo, contract, seed, budget=20, all_witnesses=False):
     if b is None:
         return dict(error="replay crate does not build against this tree: " + (err or ""))
     env = dict(os.environ)
-    if contract.startswith("run_") or contract.startswith("cli") or contract in ("bisync", "apply", "copy_atomic", "serve", "safe_join", "tmp_of", "read_frame", "write_frame", "read_magic") or contract.startswith("Archive::") or contract.startswith("handle_"):
+    if contract.startswith("run_") or contract.startswith("cli") or contract in ("bisync", "apply", "copy_atomic", "serve", "safe_join", "tmp_of", "read_frame", "write_frame", "read_magic", "oneway", "tmp_path", "create_local_dirs") or contract.startswith("Archive::") or contract.startswith("handle_") or contract.startswith("deliver_") or contract.startswith("transfer_file_"):
         cb = cli_bin(repo)
         if cb is None:
             return dict(error="the CLI of this tree does not build")
@@ -484,6 +484,10 @@ def twin_validate(pid, spec, repo, tier, seed, out):
     if rc not in (0, 1):
         out.undecided.append("twin %s crashed rc=%d: %s" % (spec["name"], rc, se[-400:]))
     out.validated.append(dict(function=spec["name"], cases=cases, tier=tier, contract=spec.get("contract", ""), wall_s=round(wall, 1)))
+    if spec.get("bounded"):
+        # this run on the real code also STANDS IN for a part no contract can reach: bounded, never counted as proved
+        out.bounded.append(dict(function=spec.get("repo_fn", spec["name"]), backend="real binary under a ptrace supervisor", bounded=spec["bounded"], cases=cases,
+                                success=not any(v["unit"] == "twin" and v["function"] == spec["name"] for v in out.violations)))
 
 
 # ---------------------------------------------------------------------------------------------
@@ -708,7 +712,7 @@ def do_replay(path, repo):
         print("replay crate does not build: " + str(err))
         return 2
     env = dict(os.environ)
-    if str(w.get("kind", "")).startswith("cli") or str(w.get("kind", "")).startswith("bisync") or str(w.get("kind", "")) == "serve":
+    if str(w.get("kind", "")).startswith("cli") or str(w.get("kind", "")).startswith("bisync") or str(w.get("kind", "")) in ("serve", "oneway"):
         env["COPIA_BIN"] = cli_bin(repo) or ""
     rc, so, se, _ = run([b, "run", json.dumps(w)], timeout=120, env=env)
     sys.stdout.write(so)
